@@ -1,6 +1,1644 @@
 //! Correspondence runs for the trait-default methods of `PolynomialCommitment` (lib.rs):
 //! `batch_open`, `batch_check`, `open_combinations`, `check_combinations`, driven through a toy scheme
 //! whose `open`/`check` log their arguments. Called for every property; returns for those it has nothing to add to.
+//!
+//! `ToyPC` implements the trait with logging `open`/`check` only; the four default methods that run are
+//! the LIBRARY's. Each run is compared with the Lean model `PCV.TraitDefault` instantiated with the same
+//! toy (`Model/DrvDefault.lean`): result (exact error kind included), produced proofs / evaluations and
+//! the full call log. Case ids: `Cxx/default/<family>/<n>`.
+use crate::common::*;
+use crate::wire::{self, Req, Val};
 use crate::Ctx;
+use ark_bls12_381::Fr;
+use ark_crypto_primitives::sponge::CryptographicSponge;
+use ark_ff::{One, UniformRand, Zero};
+use ark_poly::{univariate::DensePolynomial, DenseUVPolynomial, Polynomial};
+use ark_poly_commit::{
+    BatchLCProof, Error, Evaluations, LCTerm, LabeledCommitment, LabeledPolynomial, LinearCombination,
+    PCCommitment, PCCommitmentState, PCCommitterKey, PCUniversalParams, PCVerifierKey,
+    PolynomialCommitment, QuerySet,
+};
+use ark_serialize::{CanonicalDeserialize, CanonicalSerialize};
+use ark_std::rand::RngCore;
+use std::cell::RefCell;
+use std::collections::{BTreeMap, BTreeSet};
 
-pub fn run(_ctx: &mut Ctx, _prop: &str) {}
+type UniPoly = DensePolynomial<Fr>;
+type LP = LabeledPolynomial<Fr, UniPoly>;
+type LCm = LabeledCommitment<ToyComm>;
+type Q = (String, (String, Fr));
+type LinComb = LinearCombination<Fr>;
+
+// ------------------------------------------------------------------------------------------------
+// the toy scheme
+// ------------------------------------------------------------------------------------------------
+
+#[derive(Clone, Debug, Default, CanonicalSerialize, CanonicalDeserialize)]
+pub struct ToyKey {
+    pub max: u64,
+}
+impl PCUniversalParams for ToyKey {
+    fn max_degree(&self) -> usize {
+        self.max as usize
+    }
+}
+impl PCCommitterKey for ToyKey {
+    fn max_degree(&self) -> usize {
+        self.max as usize
+    }
+    fn supported_degree(&self) -> usize {
+        self.max as usize
+    }
+}
+impl PCVerifierKey for ToyKey {
+    fn max_degree(&self) -> usize {
+        self.max as usize
+    }
+    fn supported_degree(&self) -> usize {
+        self.max as usize
+    }
+}
+
+/// the "commitment" stores the coefficients and an id that tells two commitments with one label apart
+#[derive(Clone, Debug, Default, CanonicalSerialize, CanonicalDeserialize)]
+pub struct ToyComm {
+    pub id: u64,
+    pub coeffs: Vec<Fr>,
+}
+impl PCCommitment for ToyComm {
+    fn empty() -> Self {
+        ToyComm::default()
+    }
+    fn has_degree_bound(&self) -> bool {
+        false
+    }
+}
+
+#[derive(Clone, Debug, Default, CanonicalSerialize, CanonicalDeserialize)]
+pub struct ToyState {
+    pub id: u64,
+}
+impl PCCommitmentState for ToyState {
+    type Randomness = u64;
+    fn empty() -> Self {
+        ToyState::default()
+    }
+    fn rand<R: RngCore>(_: usize, _: bool, _: Option<usize>, rng: &mut R) -> u64 {
+        rng.next_u64()
+    }
+}
+
+#[derive(Clone, Debug, Default, PartialEq, CanonicalSerialize, CanonicalDeserialize)]
+pub struct ToyProof {
+    pub tag: u64,
+    pub chal: Fr,
+}
+
+struct ToyTL {
+    n: usize,
+    log: Vec<Val>,
+    script: Vec<usize>,
+}
+thread_local! {
+    static TL: RefCell<ToyTL> = RefCell::new(ToyTL { n: 0, log: vec![], script: vec![] });
+}
+fn tl_reset(script: &[usize]) {
+    TL.with(|t| {
+        let mut t = t.borrow_mut();
+        t.n = 0;
+        t.log.clear();
+        t.script = script.to_vec();
+    })
+}
+fn tl_log() -> Vec<Val> {
+    TL.with(|t| t.borrow().log.clone())
+}
+/// (call index, scripted code) of the call that starts now
+fn tl_next() -> (usize, usize) {
+    TL.with(|t| {
+        let t = t.borrow();
+        (t.n, t.script.get(t.n).copied().unwrap_or(1))
+    })
+}
+fn tl_push(entry: Val) {
+    TL.with(|t| {
+        let mut t = t.borrow_mut();
+        t.n += 1;
+        t.log.push(entry);
+    })
+}
+fn scripted_refusal(code: usize) -> Error {
+    match code {
+        4 => Error::IncorrectInputLength("scripted".to_string()),
+        5 => Error::InvalidCommitment,
+        _ => panic!("scripted abort"),
+    }
+}
+fn labels_val<'a>(ls: impl IntoIterator<Item = &'a String>) -> Val {
+    Val::L(ls.into_iter().map(|l| wire::label(l)).collect())
+}
+/// what both sides absorb before squeezing their challenge: commitment labels and point
+fn marker(comms: &[&LCm], point: &Fr) -> Vec<u8> {
+    let mut m = b"toy".to_vec();
+    for c in comms {
+        m.extend_from_slice(c.label().as_bytes());
+        m.push(0xff);
+    }
+    point.serialize_compressed(&mut m).unwrap();
+    m
+}
+
+pub struct ToyPC;
+
+impl PolynomialCommitment<Fr, UniPoly> for ToyPC {
+    type UniversalParams = ToyKey;
+    type CommitterKey = ToyKey;
+    type VerifierKey = ToyKey;
+    type Commitment = ToyComm;
+    type CommitmentState = ToyState;
+    type Proof = ToyProof;
+    type BatchProof = Vec<ToyProof>;
+    type Error = Error;
+
+    fn setup<R: RngCore>(max_degree: usize, _: Option<usize>, _: &mut R) -> Result<ToyKey, Error> {
+        Ok(ToyKey { max: max_degree as u64 })
+    }
+    fn trim(pp: &ToyKey, _: usize, _: usize, _: Option<&[usize]>) -> Result<(ToyKey, ToyKey), Error> {
+        Ok((pp.clone(), pp.clone()))
+    }
+    fn commit<'a>(
+        _ck: &ToyKey,
+        polynomials: impl IntoIterator<Item = &'a LP>,
+        _rng: Option<&mut dyn RngCore>,
+    ) -> Result<(Vec<LCm>, Vec<ToyState>), Error>
+    where
+        UniPoly: 'a,
+    {
+        let mut cs = vec![];
+        let mut ss = vec![];
+        for (i, p) in polynomials.into_iter().enumerate() {
+            cs.push(LabeledCommitment::new(
+                p.label().clone(),
+                ToyComm { id: i as u64, coeffs: p.polynomial().coeffs().to_vec() },
+                None,
+            ));
+            ss.push(ToyState { id: i as u64 });
+        }
+        Ok((cs, ss))
+    }
+    fn open<'a>(
+        _ck: &ToyKey,
+        labeled_polynomials: impl IntoIterator<Item = &'a LP>,
+        commitments: impl IntoIterator<Item = &'a LCm>,
+        point: &'a Fr,
+        sponge: &mut impl CryptographicSponge,
+        states: impl IntoIterator<Item = &'a ToyState>,
+        _rng: Option<&mut dyn RngCore>,
+    ) -> Result<ToyProof, Error>
+    where
+        UniPoly: 'a,
+        ToyState: 'a,
+        ToyComm: 'a,
+    {
+        let (n, code) = tl_next();
+        if code != 1 {
+            return Err(scripted_refusal(code));
+        }
+        let polys: Vec<&LP> = labeled_polynomials.into_iter().collect();
+        let comms: Vec<&LCm> = commitments.into_iter().collect();
+        let sts: Vec<&ToyState> = states.into_iter().collect();
+        sponge.absorb(&marker(&comms, point));
+        let chal: Fr = sponge.squeeze_field_elements::<Fr>(1)[0];
+        tl_push(Val::L(vec![
+            labels_val(polys.iter().map(|p| p.label())),
+            wire::nats(&sts.iter().map(|s| s.id as usize).collect::<Vec<_>>()),
+            labels_val(comms.iter().map(|c| c.label())),
+            wire::nats(&comms.iter().map(|c| c.commitment().id as usize).collect::<Vec<_>>()),
+            wire::fe(point),
+        ]));
+        Ok(ToyProof { tag: n as u64, chal })
+    }
+    fn check<'a>(
+        _vk: &ToyKey,
+        commitments: impl IntoIterator<Item = &'a LCm>,
+        point: &'a Fr,
+        values: impl IntoIterator<Item = Fr>,
+        proof: &ToyProof,
+        sponge: &mut impl CryptographicSponge,
+        _rng: Option<&mut dyn RngCore>,
+    ) -> Result<bool, Error>
+    where
+        ToyComm: 'a,
+    {
+        let (_, code) = tl_next();
+        if code != 0 && code != 1 && code != 6 {
+            return Err(scripted_refusal(code));
+        }
+        let comms: Vec<&LCm> = commitments.into_iter().collect();
+        let values: Vec<Fr> = values.into_iter().collect();
+        sponge.absorb(&marker(&comms, point));
+        let chal: Fr = sponge.squeeze_field_elements::<Fr>(1)[0];
+        let agree = chal == proof.chal;
+        tl_push(Val::L(vec![
+            labels_val(comms.iter().map(|c| c.label())),
+            wire::nats(&comms.iter().map(|c| c.commitment().id as usize).collect::<Vec<_>>()),
+            wire::fe(point),
+            wire::fes(&values),
+            wire::nat(proof.tag as usize),
+            wire::fe(&proof.chal),
+            wire::boolean(agree),
+        ]));
+        Ok(match code {
+            0 => false,
+            6 => true,
+            _ => agree,
+        })
+    }
+}
+
+// ------------------------------------------------------------------------------------------------
+// outcomes, encoders
+// ------------------------------------------------------------------------------------------------
+
+#[derive(Clone, Debug, PartialEq)]
+pub enum Out {
+    B(bool),
+    /// refusal with its kind: 2 MissingPolynomial, 3 MissingEvaluation, 4/5 scripted, 9 panic
+    E(usize),
+}
+impl Out {
+    fn val(&self) -> Val {
+        match self {
+            Out::B(b) => wire::boolean(*b),
+            Out::E(c) => Val::L(vec![wire::nat(*c)]),
+        }
+    }
+    fn accepted(&self) -> bool {
+        *self == Out::B(true)
+    }
+}
+fn ecode(e: &Error) -> usize {
+    match e {
+        Error::MissingPolynomial { .. } => 2,
+        Error::MissingEvaluation { .. } => 3,
+        Error::IncorrectInputLength(_) => 4,
+        Error::InvalidCommitment => 5,
+        _ => 99,
+    }
+}
+fn classify<T>(r: Result<Result<T, Error>, String>) -> Result<T, usize> {
+    match r {
+        Ok(Ok(x)) => Ok(x),
+        Ok(Err(e)) => Err(ecode(&e)),
+        Err(_) => Err(9),
+    }
+}
+fn out_of(r: Result<bool, usize>) -> Out {
+    match r {
+        Ok(b) => Out::B(b),
+        Err(c) => Out::E(c),
+    }
+}
+
+fn v_queries(qs: &[Q]) -> Val {
+    Val::L(
+        qs.iter()
+            .map(|(l, (pl, z))| Val::L(vec![wire::label(l), wire::label(pl), wire::fe(z)]))
+            .collect(),
+    )
+}
+fn v_evals(ev: &Evaluations<Fr, Fr>) -> Val {
+    Val::L(
+        ev.iter()
+            .map(|((l, z), v)| Val::L(vec![wire::label(l), wire::fe(z), wire::fe(v)]))
+            .collect(),
+    )
+}
+fn v_proofs(ps: &[ToyProof]) -> Val {
+    Val::L(ps.iter().map(|p| Val::L(vec![wire::nat(p.tag as usize), wire::fe(&p.chal)])).collect())
+}
+fn v_lcs(lcs: &[LinComb]) -> Val {
+    Val::L(
+        lcs.iter()
+            .map(|lc| {
+                Val::L(vec![
+                    wire::label(lc.label()),
+                    Val::L(
+                        lc.iter()
+                            .map(|(c, t)| {
+                                Val::L(vec![
+                                    wire::fe(c),
+                                    match t {
+                                        LCTerm::One => Val::None,
+                                        LCTerm::PolyLabel(l) => wire::opt(Some(wire::label(l))),
+                                    },
+                                ])
+                            })
+                            .collect(),
+                    ),
+                ])
+            })
+            .collect(),
+    )
+}
+fn req_polys(r: Req, polys: &[LP], sts: &[ToyState]) -> Req {
+    r.arg("plabels", labels_val(polys.iter().map(|p| p.label())))
+        .arg("pcoeffs", wire::fess(&polys.iter().map(|p| p.polynomial().coeffs().to_vec()).collect::<Vec<_>>()))
+        .arg("sts", wire::nats(&sts.iter().map(|s| s.id as usize).collect::<Vec<_>>()))
+}
+fn req_comms(r: Req, comms: &[LCm]) -> Req {
+    r.arg("clabels", labels_val(comms.iter().map(|c| c.label())))
+        .arg("cids", wire::nats(&comms.iter().map(|c| c.commitment().id as usize).collect::<Vec<_>>()))
+}
+
+// ------------------------------------------------------------------------------------------------
+// running the LIBRARY's default methods on the toy, and asking the model the same question
+// ------------------------------------------------------------------------------------------------
+
+fn key() -> ToyKey {
+    ToyKey { max: 64 }
+}
+
+/// what one prover-side run produced
+pub struct OpenRun {
+    pub res: Result<Vec<ToyProof>, usize>,
+    pub evals: Option<Vec<Fr>>,
+    pub log: Vec<Val>,
+    pub chals: Vec<Fr>,
+}
+/// what one verifier-side run produced
+pub struct CheckRun {
+    pub out: Out,
+    pub log: Vec<Val>,
+    pub chals: Vec<Fr>,
+}
+
+fn lib_batch_open(polys: &[LP], sts: &[ToyState], comms: &[LCm], qs: &QuerySet<Fr>, script: &[usize], sp: &mut LogSponge) -> OpenRun {
+    tl_reset(script);
+    let before = sp.challenges().len();
+    let mut rng = rng_for(7, "default/rng", 0);
+    let r = guarded(|| {
+        ToyPC::batch_open(&key(), polys.iter(), comms.iter(), qs, sp, sts.iter(), Some(&mut rng as &mut dyn RngCore))
+    });
+    OpenRun { res: classify(r), evals: None, log: tl_log(), chals: sp.challenges()[before..].to_vec() }
+}
+
+fn lib_batch_check(comms: &[LCm], qs: &QuerySet<Fr>, evals: &Evaluations<Fr, Fr>, proofs: &Vec<ToyProof>, script: &[usize], sp: &mut LogSponge) -> CheckRun {
+    tl_reset(script);
+    let before = sp.challenges().len();
+    let mut rng = rng_for(7, "default/rng", 1);
+    let r = guarded(|| ToyPC::batch_check(&key(), comms.iter(), qs, evals, proofs, sp, &mut rng));
+    CheckRun { out: out_of(classify(r)), log: tl_log(), chals: sp.challenges()[before..].to_vec() }
+}
+
+fn lib_open_combinations(lcs: &[LinComb], polys: &[LP], sts: &[ToyState], comms: &[LCm], qs: &QuerySet<Fr>, script: &[usize], sp: &mut LogSponge) -> OpenRun {
+    tl_reset(script);
+    let before = sp.challenges().len();
+    let mut rng = rng_for(7, "default/rng", 2);
+    let r = guarded(|| {
+        ToyPC::open_combinations(&key(), lcs.iter(), polys.iter(), comms.iter(), qs, sp, sts.iter(), Some(&mut rng as &mut dyn RngCore))
+    });
+    match classify(r) {
+        Ok(p) => OpenRun { res: Ok(p.proof), evals: p.evals, log: tl_log(), chals: sp.challenges()[before..].to_vec() },
+        Err(c) => OpenRun { res: Err(c), evals: None, log: tl_log(), chals: sp.challenges()[before..].to_vec() },
+    }
+}
+
+fn lib_check_combinations(lcs: &[LinComb], comms: &[LCm], qs: &QuerySet<Fr>, eq_evals: &Evaluations<Fr, Fr>, proofs: &Vec<ToyProof>, pevals: &Option<Vec<Fr>>, script: &[usize], sp: &mut LogSponge) -> CheckRun {
+    tl_reset(script);
+    let before = sp.challenges().len();
+    let mut rng = rng_for(7, "default/rng", 3);
+    let proof = BatchLCProof { proof: proofs.clone(), evals: pevals.clone() };
+    let r = guarded(|| ToyPC::check_combinations(&key(), lcs.iter(), comms.iter(), qs, eq_evals, &proof, sp, &mut rng));
+    CheckRun { out: out_of(classify(r)), log: tl_log(), chals: sp.challenges()[before..].to_vec() }
+}
+
+fn expect_open(run: &OpenRun, with_evals: bool) -> ImplOutcome {
+    match &run.res {
+        Ok(ps) => {
+            let mut f = vec![
+                ("res".to_string(), Expect::Raw(wire::nat(1))),
+                ("proofs".to_string(), Expect::Raw(v_proofs(ps))),
+                ("log".to_string(), Expect::Raw(Val::L(run.log.clone()))),
+            ];
+            if with_evals {
+                f.push(("evals".to_string(), Expect::Raw(wire::opt(run.evals.as_ref().map(|e| wire::fes(e))))));
+            }
+            ImplOutcome::Ok(f)
+        }
+        Err(c) => ImplOutcome::Ok(vec![("res".to_string(), Expect::Raw(Val::L(vec![wire::nat(*c)])))]),
+    }
+}
+fn expect_check(run: &CheckRun) -> ImplOutcome {
+    match &run.out {
+        Out::B(_) => ImplOutcome::Ok(vec![
+            ("res".to_string(), Expect::Raw(run.out.val())),
+            ("log".to_string(), Expect::Raw(Val::L(run.log.clone()))),
+        ]),
+        Out::E(_) => ImplOutcome::Ok(vec![("res".to_string(), Expect::Raw(run.out.val()))]),
+    }
+}
+
+/// `qlist`: the queries as the caller lists them (any order, duplicates allowed); the library gets the set
+fn ask_batch_open(ctx: &mut Ctx, id: &str, polys: &[LP], sts: &[ToyState], comms: &[LCm], qlist: &[Q], script: &[usize], run: &OpenRun) {
+    let r = req_comms(req_polys(Req::new("dflt.batch_open"), polys, sts), comms)
+        .arg("qs", v_queries(qlist))
+        .arg("script", wire::nats(script))
+        .arg("chals", wire::fes(&run.chals));
+    ctx.ses.ask(id, r, expect_open(run, false));
+}
+fn ask_batch_check(ctx: &mut Ctx, id: &str, comms: &[LCm], qlist: &[Q], evals: &Evaluations<Fr, Fr>, proofs: &[ToyProof], script: &[usize], run: &CheckRun) {
+    let r = req_comms(Req::new("dflt.batch_check"), comms)
+        .arg("qs", v_queries(qlist))
+        .arg("evals", v_evals(evals))
+        .arg("proofs", v_proofs(proofs))
+        .arg("script", wire::nats(script))
+        .arg("chals", wire::fes(&run.chals));
+    ctx.ses.ask(id, r, expect_check(run));
+}
+fn ask_open_combinations(ctx: &mut Ctx, id: &str, lcs: &[LinComb], polys: &[LP], sts: &[ToyState], comms: &[LCm], qlist: &[Q], script: &[usize], run: &OpenRun) {
+    let r = req_comms(req_polys(Req::new("dflt.open_combinations").arg("lcs", v_lcs(lcs)), polys, sts), comms)
+        .arg("qs", v_queries(qlist))
+        .arg("script", wire::nats(script))
+        .arg("chals", wire::fes(&run.chals));
+    ctx.ses.ask(id, r, expect_open(run, true));
+}
+fn ask_check_combinations(ctx: &mut Ctx, id: &str, lcs: &[LinComb], comms: &[LCm], qlist: &[Q], eq_evals: &Evaluations<Fr, Fr>, proofs: &[ToyProof], pevals: &Option<Vec<Fr>>, script: &[usize], run: &CheckRun) {
+    let r = req_comms(Req::new("dflt.check_combinations").arg("lcs", v_lcs(lcs)), comms)
+        .arg("qs", v_queries(qlist))
+        .arg("evals", v_evals(eq_evals))
+        .arg("proofs", v_proofs(proofs))
+        .arg("pevals", wire::opt(pevals.as_ref().map(|e| wire::fes(e))))
+        .arg("script", wire::nats(script))
+        .arg("chals", wire::fes(&run.chals));
+    ctx.ses.ask(id, r, expect_check(run));
+}
+
+// ------------------------------------------------------------------------------------------------
+// generators
+// ------------------------------------------------------------------------------------------------
+
+const POLY_LABELS: [&str; 10] = ["a", "ab", "b", "B", "a0", "p10", "p9", "", "zeta", "\u{e9}"];
+const POINT_LABELS: [&str; 8] = ["z", "z1", "z10", "z2", "", "beta", "a", "Z"];
+const LC_LABELS: [&str; 6] = ["eq", "eq1", "eq10", "eq2", "E", "a"];
+
+fn shuffle<T>(rng: &mut Rng, v: &mut Vec<T>) {
+    for i in (1..v.len()).rev() {
+        let j = range(rng, 0, i);
+        v.swap(i, j);
+    }
+}
+fn pick_distinct(rng: &mut Rng, pool: &[&str], n: usize) -> Vec<String> {
+    let mut v: Vec<String> = pool.iter().map(|s| s.to_string()).collect();
+    shuffle(rng, &mut v);
+    v.truncate(n);
+    v
+}
+fn small_or_random(rng: &mut Rng) -> Fr {
+    match range(rng, 0, 3) {
+        0 => Fr::from(range(rng, 0, 3) as u64),
+        1 => -Fr::from(range(rng, 1, 3) as u64),
+        _ => Fr::rand(rng),
+    }
+}
+
+#[derive(Clone)]
+pub struct World {
+    pub polys: Vec<LP>,
+    pub sts: Vec<ToyState>,
+    pub comms: Vec<LCm>,
+}
+impl World {
+    fn poly(&self, l: &str) -> Option<&LP> {
+        self.polys.iter().rev().find(|p| p.label() == l)
+    }
+    /// a consistent permutation of the prover's three lists
+    fn permuted(&self, rng: &mut Rng) -> World {
+        let mut idx: Vec<usize> = (0..self.polys.len()).collect();
+        shuffle(rng, &mut idx);
+        World {
+            polys: idx.iter().map(|&i| self.polys[i].clone()).collect(),
+            sts: idx.iter().map(|&i| self.sts[i].clone()).collect(),
+            comms: idx.iter().map(|&i| self.comms[i].clone()).collect(),
+        }
+    }
+}
+fn gen_world(rng: &mut Rng, n: usize) -> World {
+    let labels = pick_distinct(rng, &POLY_LABELS, n);
+    let mut w = World { polys: vec![], sts: vec![], comms: vec![] };
+    for (i, l) in labels.iter().enumerate() {
+        let deg = range(rng, 0, 4);
+        let mut coeffs: Vec<Fr> = (0..=deg).map(|_| small_or_random(rng)).collect();
+        if i % 5 == 4 {
+            coeffs = vec![];
+        }
+        let p = UniPoly::from_coefficients_vec(coeffs);
+        let id = (10 + 7 * i + range(rng, 0, 5)) as u64;
+        w.comms.push(LabeledCommitment::new(l.clone(), ToyComm { id, coeffs: p.coeffs().to_vec() }, None));
+        w.sts.push(ToyState { id: id + 100 });
+        w.polys.push(LabeledPolynomial::new(l.clone(), p, None, None));
+    }
+    w
+}
+
+/// `k` point labels with their points (some sharing a value), and for each a non-empty set of `labels`
+fn gen_queries(rng: &mut Rng, labels: &[String], k: usize) -> Vec<Q> {
+    let pls = pick_distinct(rng, &POINT_LABELS, k);
+    let mut pts: Vec<Fr> = vec![];
+    for i in 0..k {
+        let z = if i > 0 && range(rng, 0, 2) == 0 { pts[range(rng, 0, i - 1)] } else { small_or_random(rng) };
+        pts.push(z);
+    }
+    let mut qs = vec![];
+    for (pl, z) in pls.iter().zip(pts.iter()) {
+        let mut ls: Vec<String> = labels.to_vec();
+        shuffle(rng, &mut ls);
+        let m = range(rng, 1, ls.len());
+        for l in ls.into_iter().take(m) {
+            qs.push((l, (pl.clone(), *z)));
+        }
+    }
+    // the first label is queried at every point label (one polynomial at several points)
+    if coin(rng) {
+        for (pl, z) in pls.iter().zip(pts.iter()) {
+            qs.push((labels[0].clone(), (pl.clone(), *z)));
+        }
+    }
+    qs
+}
+/// the caller's list: shuffled, with some queries listed twice
+fn listed(rng: &mut Rng, qs: &[Q]) -> Vec<Q> {
+    let mut v = qs.to_vec();
+    let n = v.len();
+    for _ in 0..range(rng, 0, 2) {
+        v.push(qs[range(rng, 0, n - 1)].clone());
+    }
+    shuffle(rng, &mut v);
+    v
+}
+fn set_of(qs: &[Q]) -> QuerySet<Fr> {
+    qs.iter().cloned().collect()
+}
+fn true_evals(w: &World, qs: &[Q]) -> Evaluations<Fr, Fr> {
+    let mut ev = Evaluations::new();
+    for (l, (_, z)) in qs {
+        if let Some(p) = w.poly(l) {
+            ev.insert((l.clone(), *z), p.polynomial().evaluate(z));
+        }
+    }
+    ev
+}
+/// the harness's own grouping: point label -> (first point in set order, sorted label set)
+fn ref_groups(qs: &QuerySet<Fr>) -> Vec<(String, Fr, Vec<String>)> {
+    let mut m: BTreeMap<String, (Fr, BTreeSet<String>)> = BTreeMap::new();
+    for (l, (pl, z)) in qs.iter() {
+        m.entry(pl.clone()).or_insert((*z, BTreeSet::new())).1.insert(l.clone());
+    }
+    m.into_iter().map(|(pl, (z, ls))| (pl, z, ls.into_iter().collect())).collect()
+}
+
+/// the decision the property attaches to a batch: every per-group `check` on its own, in group order on
+/// the same sponge; the first refusal is the refusal of the batch, otherwise the conjunction
+fn ref_batch_decision(comms: &[LCm], qs: &QuerySet<Fr>, evals: &Evaluations<Fr, Fr>, proofs: &[ToyProof], script: &[usize], sp0: &LogSponge) -> Out {
+    let groups = ref_groups(qs);
+    if proofs.len() != groups.len() {
+        return Out::E(9);
+    }
+    let mut by_label: BTreeMap<String, &LCm> = BTreeMap::new();
+    for c in comms {
+        by_label.insert(c.label().clone(), c);
+    }
+    tl_reset(script);
+    let mut sp = sp0.clone();
+    let mut all = true;
+    for ((_, z, ls), proof) in groups.iter().zip(proofs.iter()) {
+        let mut cs = vec![];
+        let mut vs = vec![];
+        for l in ls {
+            match by_label.get(l) {
+                None => return Out::E(2),
+                Some(c) => cs.push(*c),
+            }
+            match evals.get(&(l.clone(), *z)) {
+                None => return Out::E(3),
+                Some(v) => vs.push(*v),
+            }
+        }
+        let r = guarded(|| ToyPC::check(&key(), cs.iter().copied(), z, vs.clone(), proof, &mut sp, None));
+        match classify(r) {
+            Ok(b) => all &= b,
+            Err(c) => return Out::E(c),
+        }
+    }
+    Out::B(all)
+}
+
+// ------------------------------------------------------------------------------------------------
+// entry
+// ------------------------------------------------------------------------------------------------
+
+pub fn run(ctx: &mut Ctx, prop: &str) {
+    match prop {
+        "C01" => c01(ctx),
+        "C02" => c02(ctx),
+        "C05" => c05(ctx),
+        "C06" => c06(ctx),
+        "C10" => c10(ctx),
+        "C11" => c11(ctx),
+        _ => return,
+    }
+    ctx.flush_model(&format!("{}-default", prop));
+}
+
+fn replay_text(id: &str, seed: u64, what: &str) -> String {
+    format!(
+        "# scheme: trait-default methods on ToyPC (harness/src/props_default.rs)\n# case: {}\n# seed: {}\n# {}\n# rerun: /verif/.build/cargo/debug/pcv-harness {} --seed {} --only {}\n",
+        id,
+        seed,
+        what,
+        id.split('/').next().unwrap_or(""),
+        seed,
+        id
+    )
+}
+fn fail(ctx: &mut Ctx, id: &str, sig: &str, what: &str) {
+    let txt = replay_text(id, ctx.seed, what);
+    ctx.rep.expect_fail(id, &format!("default/{}", sig), what, txt);
+}
+fn shape_key(fam: &str, npoly: usize, qs: &QuerySet<Fr>) -> String {
+    let g = ref_groups(qs);
+    let shared = {
+        let pts: BTreeSet<Fr> = g.iter().map(|x| x.1).collect();
+        pts.len() < g.len()
+    };
+    format!("default/{}/p{}/g{}/q{}/shared{}", fam, npoly, g.len(), qs.len(), shared as usize)
+}
+
+// ------------------------------------------------------------------------------------------------
+// C01 — honest batches are accepted whatever the order of the lists (and with repeated queries)
+// ------------------------------------------------------------------------------------------------
+
+fn c01(ctx: &mut Ctx) {
+    let n = ctx.n(40, 400);
+    for i in 0..n {
+        let id = format!("C01/default/order/{}", i);
+        if !ctx.selected(&id) {
+            continue;
+        }
+        let mut rng = rng_for(ctx.seed, "C01/default/order", i as u64);
+        let npoly = 1 + i % 5;
+        let w = gen_world(&mut rng, npoly);
+        let labels: Vec<String> = w.polys.iter().map(|p| p.label().clone()).collect();
+        let k = 1 + (i / 5) % 4;
+        let qs = gen_queries(&mut rng, &labels, k);
+        let qset = set_of(&qs);
+        let evals = true_evals(&w, &qs);
+        let sp0 = {
+            let mut s = LogSponge::fresh();
+            s.absorb(&(i as u64).to_le_bytes().to_vec());
+            s
+        };
+        // reference run: lists as generated
+        let mut ps = sp0.clone();
+        let base = lib_batch_open(&w.polys, &w.sts, &w.comms, &qset, &[], &mut ps);
+        let ql = listed(&mut rng, &qs);
+        ask_batch_open(ctx, &id, &w.polys, &w.sts, &w.comms, &ql, &[], &base);
+        ctx.rep.case(&format!("{} honest batch_open/batch_check, {} polys, {} queries", id, npoly, qset.len()), Some(shape_key("order", npoly, &qset)));
+        ctx.rep.count(&format!("default/groups={}", ref_groups(&qset).len()));
+        let proofs = match &base.res {
+            Ok(p) => p.clone(),
+            Err(c) => {
+                fail(ctx, &id, "honest-batch-open-refused", &format!("batch_open refused an in-domain request (code {})", c));
+                continue;
+            }
+        };
+        let mut vs = sp0.clone();
+        let chk = lib_batch_check(&w.comms, &qset, &evals, &proofs, &[], &mut vs);
+        ask_batch_check(ctx, &id, &w.comms, &ql, &evals, &proofs, &[], &chk);
+        if !chk.out.accepted() {
+            fail(ctx, &id, "honest-batch-rejected", &format!("honest default batch not accepted: {:?}", chk.out));
+        }
+        if ps.probe() != vs.probe() {
+            fail(ctx, &id, "batch-sponge-diverged", "prover and verifier sponges differ after an honest default batch");
+        }
+        // permuted lists: prover's three lists consistently, verifier's list independently, queries relisted
+        for j in 0..2 {
+            let wp = w.permuted(&mut rng);
+            let mut vc = w.comms.clone();
+            shuffle(&mut rng, &mut vc);
+            let ql2 = listed(&mut rng, &qs);
+            let mut ps2 = sp0.clone();
+            let o2 = lib_batch_open(&wp.polys, &wp.sts, &wp.comms, &set_of(&ql2), &[], &mut ps2);
+            ask_batch_open(ctx, &id, &wp.polys, &wp.sts, &wp.comms, &ql2, &[], &o2);
+            if o2.res != base.res || o2.log != base.log {
+                fail(ctx, &id, "batch-open-order-dependent", &format!("batch_open depends on the order of its lists (permutation {})", j));
+            }
+            let mut vs2 = sp0.clone();
+            let c2 = lib_batch_check(&vc, &set_of(&ql2), &evals, &proofs, &[], &mut vs2);
+            ask_batch_check(ctx, &id, &vc, &ql2, &evals, &proofs, &[], &c2);
+            if c2.out != chk.out || c2.log != chk.log {
+                fail(ctx, &id, "batch-check-order-dependent", &format!("batch_check depends on the order of its lists (permutation {})", j));
+            }
+        }
+        // the orders themselves: BTreeSet iteration and the query-to-labels map against the model's
+        let set_list: Vec<Q> = qset.iter().cloned().collect();
+        ctx.ses.ask(&id, Req::new("dflt.query_set").arg("qs", v_queries(&ql)), ImplOutcome::Ok(vec![("set".into(), Expect::Raw(v_queries(&set_list)))]));
+        let gv = Val::L(
+            ref_groups(&qset)
+                .iter()
+                .map(|(pl, z, ls)| Val::L(vec![wire::label(pl), wire::fe(z), labels_val(ls.iter())]))
+                .collect(),
+        );
+        ctx.ses.ask(&id, Req::new("dflt.groups").arg("qs", v_queries(&ql)), ImplOutcome::Ok(vec![("groups".into(), Expect::Raw(gv))]));
+    }
+}
+
+// ------------------------------------------------------------------------------------------------
+// C05 — the batch decision is the conjunction of the per-group decisions; proof count; refusals
+// ------------------------------------------------------------------------------------------------
+
+/// an honest instance with at least `kmin` groups: world, queries, evaluations, proofs, sponge pre-state
+fn honest_batch(rng: &mut Rng, i: usize, kmin: usize) -> (World, Vec<Q>, Evaluations<Fr, Fr>, Vec<ToyProof>, LogSponge) {
+    let npoly = 2 + i % 4;
+    let w = gen_world(rng, npoly);
+    let labels: Vec<String> = w.polys.iter().map(|p| p.label().clone()).collect();
+    let k = kmin + (i / 4) % 3;
+    let qs = gen_queries(rng, &labels, k);
+    let evals = true_evals(&w, &qs);
+    let mut sp0 = LogSponge::fresh();
+    sp0.absorb(&(1000 + i as u64).to_le_bytes().to_vec());
+    let mut ps = sp0.clone();
+    let o = lib_batch_open(&w.polys, &w.sts, &w.comms, &set_of(&qs), &[], &mut ps);
+    (w, qs, evals, o.res.unwrap_or_default(), sp0)
+}
+
+/// run the library's batch_check, ask the model, and hold the library to the per-group conjunction
+fn batch_case(ctx: &mut Ctx, id: &str, what: &str, comms: &[LCm], qs: &[Q], evals: &Evaluations<Fr, Fr>, proofs: &Vec<ToyProof>, script: &[usize], sp0: &LogSponge) -> CheckRun {
+    let qset = set_of(qs);
+    let mut vs = sp0.clone();
+    let run = lib_batch_check(comms, &qset, evals, proofs, script, &mut vs);
+    ask_batch_check(ctx, id, comms, qs, evals, proofs, script, &run);
+    let want = ref_batch_decision(comms, &qset, evals, proofs, script, sp0);
+    ctx.rep.case(&format!("{} {}", id, what), Some(format!("{}/{}", shape_key("batch", comms.len(), &qset), what.split(' ').next().unwrap_or(""))));
+    let same = match (&run.out, &want) {
+        (Out::B(a), Out::B(b)) => a == b,
+        (Out::E(_), Out::E(_)) => true,
+        _ => false,
+    };
+    if !same {
+        let sig = if run.out.accepted() { "batch-accepts-against-conjunction" } else { "batch-differs-from-conjunction" };
+        fail(ctx, id, sig, &format!("{}: default batch_check returned {:?}, the per-group checks give {:?} (script {:?})", what, run.out, want, script));
+    }
+    run
+}
+
+fn c05(ctx: &mut Ctx) {
+    let n = ctx.n(10, 120);
+    for i in 0..n {
+        let id = format!("C05/default/strict/{}", i);
+        if !ctx.selected(&id) {
+            continue;
+        }
+        let mut rng = rng_for(ctx.seed, "C05/default/strict", i as u64);
+        let (w, qs, evals, proofs, sp0) = honest_batch(&mut rng, i, 2);
+        let k = proofs.len();
+        // all true
+        let r = batch_case(ctx, &id, "all-true", &w.comms, &qs, &evals, &proofs, &[], &sp0);
+        if !r.out.accepted() {
+            fail(ctx, &id, "honest-batch-rejected", "all-true batch not accepted");
+        }
+        // one scripted false / refusal at every position
+        for pos in 0..k {
+            for code in [0usize, 4, 5, 9] {
+                let mut script = vec![1; k];
+                script[pos] = code;
+                let r = batch_case(ctx, &id, &format!("one-bad code{} at {} of {}", code, pos, k), &w.comms, &qs, &evals, &proofs, &script, &sp0);
+                if r.out.accepted() {
+                    fail(ctx, &id, "batch-accepts-with-bad-group", &format!("group {} of {} answered {} and the batch was accepted", pos, k, code));
+                }
+            }
+        }
+        // two bad positions: false+false, false then refusal, refusal then false, and forced-true elsewhere
+        if k >= 2 {
+            let a = range(&mut rng, 0, k - 2);
+            let b = range(&mut rng, a + 1, k - 1);
+            for (ca, cb) in [(0usize, 0usize), (0, 4), (5, 0), (0, 6), (6, 0)] {
+                let mut script = vec![6; k];
+                script[a] = ca;
+                script[b] = cb;
+                batch_case(ctx, &id, &format!("two-bad {}@{} {}@{}", ca, a, cb, b), &w.comms, &qs, &evals, &proofs, &script, &sp0);
+            }
+        }
+        // proof lists of every wrong length
+        for len in 0..=k + 1 {
+            if len == k {
+                continue;
+            }
+            let mut pl: Vec<ToyProof> = proofs.iter().cloned().take(len).collect();
+            while pl.len() < len {
+                pl.push(proofs[0].clone());
+            }
+            let r = batch_case(ctx, &id, &format!("proof-count {} for {}", len, k), &w.comms, &qs, &evals, &pl, &vec![6; k + 1], &sp0);
+            if let Out::B(_) = r.out {
+                fail(ctx, &id, "batch-answers-with-wrong-proof-count", &format!("{} proofs for {} groups were answered with {:?}", len, k, r.out));
+            }
+        }
+        // transposed / duplicated proofs: the toy's lock-step verdict rejects them
+        if k >= 2 {
+            let a = range(&mut rng, 0, k - 2);
+            let mut pl = proofs.clone();
+            pl.swap(a, a + 1);
+            let r = batch_case(ctx, &id, "proofs-transposed", &w.comms, &qs, &evals, &pl, &[], &sp0);
+            if r.out.accepted() {
+                fail(ctx, &id, "batch-accepts-transposed-proofs", "two proofs swapped and the batch was accepted");
+            }
+            let mut pl = proofs.clone();
+            pl[a + 1] = pl[a].clone();
+            let r = batch_case(ctx, &id, "proof-duplicated", &w.comms, &qs, &evals, &pl, &[], &sp0);
+            if r.out.accepted() {
+                fail(ctx, &id, "batch-accepts-duplicated-proof", "one proof used twice and the batch was accepted");
+            }
+        }
+        // a missing commitment / evaluation of a queried polynomial is refused; surplus ones change nothing
+        let qset = set_of(&qs);
+        let queried: Vec<String> = qset.iter().map(|q| q.0.clone()).collect::<BTreeSet<_>>().into_iter().collect();
+        let victim = queried[range(&mut rng, 0, queried.len() - 1)].clone();
+        let fewer: Vec<LCm> = w.comms.iter().filter(|c| *c.label() != victim).cloned().collect();
+        let r = batch_case(ctx, &id, "missing-commitment", &fewer, &qs, &evals, &proofs, &vec![6; k], &sp0);
+        if r.out != Out::E(2) {
+            fail(ctx, &id, "missing-commitment-not-refused", &format!("commitment {:?} absent: {:?}", victim, r.out));
+        }
+        let vkey = evals.keys().nth(range(&mut rng, 0, evals.len() - 1)).unwrap().clone();
+        let mut ev2 = evals.clone();
+        ev2.remove(&vkey);
+        let r = batch_case(ctx, &id, "missing-evaluation", &w.comms, &qs, &ev2, &proofs, &vec![6; k], &sp0);
+        if r.out != Out::E(3) {
+            fail(ctx, &id, "missing-evaluation-not-refused", &format!("evaluation {:?} absent: {:?}", vkey.0, r.out));
+        }
+        // both absent: the order of the two look-ups decides the kind
+        let r = batch_case(ctx, &id, "missing-both", &fewer, &qs, &ev2, &proofs, &vec![6; k], &sp0);
+        if let Out::B(_) = r.out {
+            fail(ctx, &id, "missing-both-not-refused", "commitment and evaluation absent but the batch was answered");
+        }
+        let mut more = w.comms.clone();
+        more.push(LabeledCommitment::new("unqueried".to_string(), ToyComm { id: 999, coeffs: vec![] }, None));
+        let mut ev3 = evals.clone();
+        ev3.insert(("unqueried".to_string(), Fr::from(5u64)), Fr::from(6u64));
+        ev3.insert((victim.clone(), Fr::from(123456789u64)), Fr::from(6u64));
+        let r = batch_case(ctx, &id, "surplus-inputs", &more, &qs, &ev3, &proofs, &[], &sp0);
+        if !r.out.accepted() {
+            fail(ctx, &id, "surplus-inputs-rejected", "unqueried commitment / evaluations changed the decision");
+        }
+        // two commitments under one label: the later one is the one that is checked
+        let mut dup = w.comms.clone();
+        let src = dup[range(&mut rng, 0, dup.len() - 1)].clone();
+        let at = range(&mut rng, 0, dup.len());
+        dup.insert(at, LabeledCommitment::new(src.label().clone(), ToyComm { id: 777, coeffs: vec![] }, None));
+        batch_case(ctx, &id, "duplicate-commitment-label", &dup, &qs, &evals, &proofs, &[], &sp0);
+        // one point label with two different points ("undefined" by the doc comment; the code takes the first)
+        let mut q2 = qs.clone();
+        let (l0, (pl0, z0)) = q2[0].clone();
+        q2.push((l0.clone(), (pl0.clone(), z0 + Fr::one())));
+        let mut ev4 = evals.clone();
+        ev4.insert((l0.clone(), z0 + Fr::one()), Fr::from(1u64));
+        batch_case(ctx, &id, "point-label-with-two-points", &w.comms, &q2, &ev4, &proofs, &vec![6; k], &sp0);
+        // prover side: a scripted refusal of `open` at every position, and a polynomial that is not supplied
+        for pos in 0..k {
+            let mut script = vec![1; k];
+            script[pos] = [4usize, 5, 9][pos % 3];
+            let mut ps = sp0.clone();
+            let o = lib_batch_open(&w.polys, &w.sts, &w.comms, &qset, &script, &mut ps);
+            ask_batch_open(ctx, &id, &w.polys, &w.sts, &w.comms, &qs, &script, &o);
+            if o.res.is_ok() {
+                fail(ctx, &id, "batch-open-swallows-refusal", &format!("open refused at position {} but batch_open answered", pos));
+            }
+        }
+        let wf = World {
+            polys: w.polys.iter().filter(|p| *p.label() != victim).cloned().collect(),
+            sts: w.sts.clone(),
+            comms: w.comms.clone(),
+        };
+        let mut ps = sp0.clone();
+        let o = lib_batch_open(&wf.polys, &wf.sts, &wf.comms, &qset, &[], &mut ps);
+        ask_batch_open(ctx, &id, &wf.polys, &wf.sts, &wf.comms, &qs, &[], &o);
+        // lists of different lengths are zipped (the shortest decides), duplicated polynomial labels overwrite
+        let mut wd = w.clone();
+        wd.polys.push(LabeledPolynomial::new(victim.clone(), UniPoly::from_coefficients_vec(vec![Fr::from(3u64)]), None, None));
+        wd.sts.push(ToyState { id: 555 });
+        wd.comms.push(LabeledCommitment::new("other".to_string(), ToyComm { id: 556, coeffs: vec![] }, None));
+        wd.comms.push(LabeledCommitment::new("dangling".to_string(), ToyComm { id: 557, coeffs: vec![] }, None));
+        let mut ps = sp0.clone();
+        let o = lib_batch_open(&wd.polys, &wd.sts, &wd.comms, &qset, &[], &mut ps);
+        ask_batch_open(ctx, &id, &wd.polys, &wd.sts, &wd.comms, &qs, &[], &o);
+        ctx.rep.case(&format!("{} batch_open refusals and list shapes", id), None);
+    }
+}
+
+// ------------------------------------------------------------------------------------------------
+// linear combinations: generator, honest run, reference decision
+// ------------------------------------------------------------------------------------------------
+
+fn coeff(rng: &mut Rng, kind: usize) -> Fr {
+    match kind % 5 {
+        0 => Fr::zero(),
+        1 => Fr::one(),
+        2 => -Fr::one(),
+        3 => -Fr::from(range(rng, 2, 9) as u64),
+        _ => Fr::rand(rng),
+    }
+}
+/// `nlc` equations over `labels`: zero / one / negative / random coefficients, repeated labels, constants
+fn gen_lcs(rng: &mut Rng, labels: &[String], nlc: usize, i: usize) -> Vec<LinComb> {
+    let names = pick_distinct(rng, &LC_LABELS, nlc);
+    let mut lcs = vec![];
+    for (j, name) in names.iter().enumerate() {
+        let nterms = range(rng, 1, 5);
+        let mut terms: Vec<(Fr, LCTerm)> = vec![];
+        // at least one polynomial term; equation 0 of every third case carries a zero coefficient on a
+        // polynomial that no other term of it mentions
+        let first = labels[range(rng, 0, labels.len() - 1)].clone();
+        let k0 = range(rng, 1, 4);
+        let c0 = if j == 0 && i % 3 == 0 { Fr::zero() } else { coeff(rng, k0) };
+        terms.push((c0, LCTerm::PolyLabel(first)));
+        for _ in 1..nterms {
+            let kc = range(rng, 0, 4);
+            let c = coeff(rng, kc);
+            if range(rng, 0, 3) == 0 {
+                terms.push((c, LCTerm::One));
+            } else {
+                terms.push((c, LCTerm::PolyLabel(labels[range(rng, 0, labels.len() - 1)].clone())));
+            }
+        }
+        shuffle(rng, &mut terms);
+        lcs.push(LinearCombination::new(name.clone(), terms));
+    }
+    lcs
+}
+fn lc_true_value(w: &World, lc: &LinComb, z: &Fr) -> Fr {
+    let mut v = Fr::zero();
+    for (c, t) in lc.iter() {
+        v += match t {
+            LCTerm::One => *c,
+            LCTerm::PolyLabel(l) => *c * w.poly(l).map(|p| p.polynomial().evaluate(z)).unwrap_or(Fr::zero()),
+        };
+    }
+    v
+}
+fn lc_get<'a>(lcs: &'a [LinComb], l: &str) -> Option<&'a LinComb> {
+    lcs.iter().rev().find(|lc| lc.label() == l)
+}
+/// the harness's own `lc_query_set_to_poly_query_set`
+fn ref_poly_qs(lcs: &[LinComb], eqs: &QuerySet<Fr>) -> QuerySet<Fr> {
+    let mut out = QuerySet::new();
+    for (el, (pl, z)) in eqs.iter() {
+        if let Some(lc) = lc_get(lcs, el) {
+            for (_, t) in lc.iter() {
+                if let LCTerm::PolyLabel(l) = t {
+                    out.insert((l.clone(), (pl.clone(), *z)));
+                }
+            }
+        }
+    }
+    out
+}
+/// the relation `check_combinations` is to decide, written independently: every queried equation is
+/// supplied, has a claimed value, and that value is the combination of the transmitted evaluations
+/// (paired with the sorted (polynomial, point) keys); then the batch relation on the polynomial queries
+fn ref_lc_decision(lcs: &[LinComb], comms: &[LCm], eqs: &QuerySet<Fr>, eq_evals: &Evaluations<Fr, Fr>, proofs: &[ToyProof], pevals: &Option<Vec<Fr>>, script: &[usize], sp0: &LogSponge) -> Out {
+    let pqs = ref_poly_qs(lcs, eqs);
+    let pev = match pevals {
+        None => return Out::E(9),
+        Some(e) => e,
+    };
+    let keys: BTreeSet<(String, Fr)> = pqs.iter().map(|(l, (_, z))| (l.clone(), *z)).collect();
+    let sent: Evaluations<Fr, Fr> = keys.into_iter().zip(pev.iter().cloned()).collect();
+    for (el, (_, z)) in eqs.iter() {
+        let lc = match lc_get(lcs, el) {
+            None => return Out::E(2),
+            Some(lc) => lc,
+        };
+        let claimed = match eq_evals.get(&(el.clone(), *z)) {
+            None => return Out::E(3),
+            Some(c) => *c,
+        };
+        let mut actual = Fr::zero();
+        for (c, t) in lc.iter() {
+            actual += match t {
+                LCTerm::One => *c,
+                LCTerm::PolyLabel(l) => match sent.get(&(l.clone(), *z)) {
+                    None => return Out::E(3),
+                    Some(v) => *c * v,
+                },
+            };
+        }
+        if claimed != actual {
+            return Out::B(false);
+        }
+    }
+    ref_batch_decision(comms, &pqs, &sent, proofs, script, sp0)
+}
+
+pub struct LcInst {
+    pub w: World,
+    pub lcs: Vec<LinComb>,
+    pub qs: Vec<Q>,
+    pub eq_evals: Evaluations<Fr, Fr>,
+    pub sp0: LogSponge,
+}
+fn gen_lc_inst(rng: &mut Rng, i: usize) -> LcInst {
+    let npoly = 1 + i % 4;
+    let w = gen_world(rng, npoly);
+    let labels: Vec<String> = w.polys.iter().map(|p| p.label().clone()).collect();
+    let nlc = 1 + (i / 2) % 3;
+    let lcs = gen_lcs(rng, &labels, nlc, i);
+    let eq_labels: Vec<String> = lcs.iter().map(|lc| lc.label().clone()).collect();
+    let k = 1 + (i / 3) % 3;
+    let mut qs = gen_queries(rng, &eq_labels, k);
+    // equation 0 at (at least) two distinct points under distinct point labels
+    let z = Fr::rand(rng);
+    qs.push((eq_labels[0].clone(), ("w1".to_string(), z)));
+    qs.push((eq_labels[0].clone(), ("w2".to_string(), z + Fr::one())));
+    if i % 2 == 0 {
+        // and a third point label sharing the first point value
+        qs.push((eq_labels[0].clone(), ("w3".to_string(), z)));
+    }
+    let mut eq_evals = Evaluations::new();
+    for (el, (_, z)) in &qs {
+        eq_evals.insert((el.clone(), *z), lc_true_value(&w, lc_get(&lcs, el).unwrap(), z));
+    }
+    let mut sp0 = LogSponge::fresh();
+    sp0.absorb(&(5000 + i as u64).to_le_bytes().to_vec());
+    LcInst { w, lcs, qs, eq_evals, sp0 }
+}
+
+/// run the library's check_combinations, ask the model, hold the library to the reference relation
+fn lc_case(ctx: &mut Ctx, id: &str, what: &str, lcs: &[LinComb], comms: &[LCm], qs: &[Q], eq_evals: &Evaluations<Fr, Fr>, proofs: &Vec<ToyProof>, pevals: &Option<Vec<Fr>>, script: &[usize], sp0: &LogSponge) -> CheckRun {
+    let qset = set_of(qs);
+    let mut vs = sp0.clone();
+    let run = lib_check_combinations(lcs, comms, &qset, eq_evals, proofs, pevals, script, &mut vs);
+    ask_check_combinations(ctx, id, lcs, comms, qs, eq_evals, proofs, pevals, script, &run);
+    let want = ref_lc_decision(lcs, comms, &qset, eq_evals, proofs, pevals, script, sp0);
+    ctx.rep.case(&format!("{} {}", id, what), Some(format!("default/lc/e{}/q{}/{}", lcs.len(), qset.len(), what.split(' ').next().unwrap_or(""))));
+    let same = match (&run.out, &want) {
+        (Out::B(a), Out::B(b)) => a == b,
+        (Out::E(_), Out::E(_)) => true,
+        _ => false,
+    };
+    if !same {
+        let sig = if run.out.accepted() { "combinations-accept-against-relation" } else { "combinations-differ-from-relation" };
+        fail(ctx, id, sig, &format!("{}: default check_combinations returned {:?}, the relation gives {:?}", what, run.out, want));
+    }
+    run
+}
+
+/// honest open_combinations (+ model), returns the proof
+fn lc_open(ctx: &mut Ctx, id: &str, inst: &LcInst, ps: &mut LogSponge) -> Option<(Vec<ToyProof>, Option<Vec<Fr>>)> {
+    let qset = set_of(&inst.qs);
+    let o = lib_open_combinations(&inst.lcs, &inst.w.polys, &inst.w.sts, &inst.w.comms, &qset, &[], ps);
+    ask_open_combinations(ctx, id, &inst.lcs, &inst.w.polys, &inst.w.sts, &inst.w.comms, &inst.qs, &[], &o);
+    // the polynomial query set against the model's and the harness's own
+    let pq: Vec<Q> = ref_poly_qs(&inst.lcs, &qset).into_iter().collect();
+    ctx.ses.ask(
+        id,
+        Req::new("dflt.poly_query_set").arg("lcs", v_lcs(&inst.lcs)).arg("qs", v_queries(&inst.qs)),
+        ImplOutcome::Ok(vec![("set".into(), Expect::Raw(v_queries(&pq)))]),
+    );
+    match o.res {
+        Ok(p) => {
+            // every polynomial label of a queried equation was opened under that point label, zero coefficient or not
+            let want: Vec<Val> = ref_groups(&ref_poly_qs(&inst.lcs, &qset)).iter().map(|g| labels_val(g.2.iter())).collect();
+            let got: Vec<Val> = o.log.iter().map(|e| e.as_list().map(|l| l[0].clone()).unwrap_or(Val::None)).collect();
+            if want != got {
+                fail(ctx, id, "combinations-open-wrong-groups", "open_combinations did not open exactly the polynomials of the queried equations, grouped by point label");
+            }
+            Some((p, o.evals))
+        }
+        Err(c) => {
+            fail(ctx, id, "honest-open-combinations-refused", &format!("open_combinations refused an in-domain request (code {})", c));
+            None
+        }
+    }
+}
+
+// ------------------------------------------------------------------------------------------------
+// C06 — combination openings prove exactly the stated combinations
+// ------------------------------------------------------------------------------------------------
+
+fn c06(ctx: &mut Ctx) {
+    let n = ctx.n(30, 300);
+    for i in 0..n {
+        let id = format!("C06/default/lc/{}", i);
+        if !ctx.selected(&id) {
+            continue;
+        }
+        let mut rng = rng_for(ctx.seed, "C06/default/lc", i as u64);
+        let inst = gen_lc_inst(&mut rng, i);
+        let mut ps = inst.sp0.clone();
+        let (proofs, pevals) = match lc_open(ctx, &id, &inst, &mut ps) {
+            Some(x) => x,
+            None => continue,
+        };
+        let k = proofs.len();
+        ctx.rep.count(&format!("default/lc-equations={}", inst.lcs.len()));
+        // honest: accepted, sponges agree; also with relisted queries and permuted equation / commitment lists
+        let r = lc_case(ctx, &id, "honest", &inst.lcs, &inst.w.comms, &inst.qs, &inst.eq_evals, &proofs, &pevals, &[], &inst.sp0);
+        if !r.out.accepted() {
+            fail(ctx, &id, "honest-combinations-rejected", &format!("honest default combination proof not accepted: {:?}", r.out));
+        }
+        {
+            let mut vs = inst.sp0.clone();
+            lib_check_combinations(&inst.lcs, &inst.w.comms, &set_of(&inst.qs), &inst.eq_evals, &proofs, &pevals, &[], &mut vs);
+            if vs.probe() != ps.probe() {
+                fail(ctx, &id, "combinations-sponge-diverged", "sponges differ after an honest default combination opening");
+            }
+        }
+        let mut lcs2 = inst.lcs.clone();
+        shuffle(&mut rng, &mut lcs2);
+        let mut vc = inst.w.comms.clone();
+        shuffle(&mut rng, &mut vc);
+        let ql = listed(&mut rng, &inst.qs);
+        let r2 = lc_case(ctx, &id, "honest-permuted", &lcs2, &vc, &ql, &inst.eq_evals, &proofs, &pevals, &[], &inst.sp0);
+        if r2.out != r.out || r2.log != r.log {
+            fail(ctx, &id, "combinations-order-dependent", "check_combinations depends on the order of its lists");
+        }
+        let wp = inst.w.permuted(&mut rng);
+        let mut ps2 = inst.sp0.clone();
+        let o2 = lib_open_combinations(&lcs2, &wp.polys, &wp.sts, &wp.comms, &set_of(&ql), &[], &mut ps2);
+        ask_open_combinations(ctx, &id, &lcs2, &wp.polys, &wp.sts, &wp.comms, &ql, &[], &o2);
+        if o2.res != Ok(proofs.clone()) || o2.evals != pevals {
+            fail(ctx, &id, "open-combinations-order-dependent", "open_combinations depends on the order of its lists");
+        }
+        // a wrong claimed value at every position of the equation query set
+        let keys: Vec<(String, Fr)> = inst.eq_evals.keys().cloned().collect();
+        for (j, key) in keys.iter().enumerate() {
+            let mut ev = inst.eq_evals.clone();
+            *ev.get_mut(key).unwrap() += Fr::from(1 + (j as u64));
+            let r = lc_case(ctx, &id, &format!("claimed-value-changed at {} of {}", j, keys.len()), &inst.lcs, &inst.w.comms, &inst.qs, &ev, &proofs, &pevals, &vec![6; k], &inst.sp0);
+            if r.out != Out::B(false) {
+                fail(ctx, &id, "wrong-combination-value-not-rejected", &format!("claimed value of {:?} changed: {:?}", key.0, r.out));
+            }
+        }
+        // verifier-side coefficient / constant changed, term by term
+        let sent: Evaluations<Fr, Fr> = {
+            let pqs = ref_poly_qs(&inst.lcs, &set_of(&inst.qs));
+            let ks: BTreeSet<(String, Fr)> = pqs.iter().map(|(l, (_, z))| (l.clone(), *z)).collect();
+            ks.into_iter().zip(pevals.clone().unwrap_or_default()).collect()
+        };
+        for (e, lc) in inst.lcs.iter().enumerate() {
+            for t in 0..lc.terms.len() {
+                let mut lcs3 = inst.lcs.clone();
+                lcs3[e].terms[t].0 += Fr::from(3u64);
+                // does the change move the value at some queried point of this equation?
+                let moves = inst.qs.iter().any(|(el, (_, z))| {
+                    el == lc.label()
+                        && match &lc.terms[t].1 {
+                            LCTerm::One => true,
+                            LCTerm::PolyLabel(l) => sent.get(&(l.clone(), *z)).map(|v| !v.is_zero()).unwrap_or(false),
+                        }
+                });
+                let kind = if lc.terms[t].1.is_one() { "constant-changed" } else { "coefficient-changed" };
+                let r = lc_case(ctx, &id, &format!("{} eq {} term {}", kind, e, t), &lcs3, &inst.w.comms, &inst.qs, &inst.eq_evals, &proofs, &pevals, &vec![6; k], &inst.sp0);
+                if moves && r.out != Out::B(false) {
+                    fail(ctx, &id, "changed-combination-not-rejected", &format!("{} in equation {:?}, term {}: {:?}", kind, lc.label(), t, r.out));
+                }
+            }
+        }
+        // transmitted evaluations changed keeping one equation's sum fixed: the changed values must reach `check`
+        if let Some(pe) = &pevals {
+            if pe.len() >= 1 {
+                let j = range(&mut rng, 0, pe.len() - 1);
+                let mut pe2 = pe.clone();
+                pe2[j] += Fr::from(9u64);
+                let r = lc_case(ctx, &id, "transmitted-evaluation-changed", &inst.lcs, &inst.w.comms, &inst.qs, &inst.eq_evals, &proofs, &Some(pe2.clone()), &vec![6; k], &inst.sp0);
+                if let Out::B(true) = r.out {
+                    // accepted by the equation stage (zero net effect): then the scheme's check saw the changed value
+                    let seen: Vec<Val> = r.log.iter().flat_map(|e| e.as_list().and_then(|l| l[3].as_list().cloned()).unwrap_or_default()).collect();
+                    if !seen.contains(&wire::fe(&pe2[j])) {
+                        fail(ctx, &id, "changed-evaluation-not-checked", "a changed transmitted evaluation passed the equations and never reached the scheme's check");
+                    }
+                }
+                // shorter / longer / absent evaluation lists
+                let mut short = pe.clone();
+                short.pop();
+                lc_case(ctx, &id, "evaluations-truncated", &inst.lcs, &inst.w.comms, &inst.qs, &inst.eq_evals, &proofs, &Some(short), &vec![6; k], &inst.sp0);
+                let mut long = pe.clone();
+                long.push(Fr::from(4u64));
+                let r = lc_case(ctx, &id, "evaluations-extended", &inst.lcs, &inst.w.comms, &inst.qs, &inst.eq_evals, &proofs, &Some(long), &[], &inst.sp0);
+                if !r.out.accepted() {
+                    fail(ctx, &id, "surplus-evaluation-rejected", "a surplus transmitted evaluation changed the decision");
+                }
+            }
+            let r = lc_case(ctx, &id, "evaluations-absent", &inst.lcs, &inst.w.comms, &inst.qs, &inst.eq_evals, &proofs, &None, &vec![6; k], &inst.sp0);
+            if let Out::B(_) = r.out {
+                fail(ctx, &id, "absent-evaluations-answered", "BatchLCProof without evaluations was answered");
+            }
+        }
+        // a query naming an equation that is not supplied; a queried equation without claimed value
+        let mut q4 = inst.qs.clone();
+        q4.push(("nosuch".to_string(), ("w1".to_string(), Fr::from(2u64))));
+        let r = lc_case(ctx, &id, "unknown-equation-queried", &inst.lcs, &inst.w.comms, &q4, &inst.eq_evals, &proofs, &pevals, &vec![6; k], &inst.sp0);
+        if let Out::B(_) = r.out {
+            fail(ctx, &id, "unknown-equation-answered", "a claim about an equation that was not supplied was answered");
+        }
+        let mut ev5 = inst.eq_evals.clone();
+        let dk = keys[range(&mut rng, 0, keys.len() - 1)].clone();
+        ev5.remove(&dk);
+        let r = lc_case(ctx, &id, "claimed-value-absent", &inst.lcs, &inst.w.comms, &inst.qs, &ev5, &proofs, &pevals, &vec![6; k], &inst.sp0);
+        if let Out::B(_) = r.out {
+            fail(ctx, &id, "absent-claim-answered", "a queried equation without claimed value was answered");
+        }
+        // two equations under one label: the later one counts (both sides)
+        let mut lcs6 = inst.lcs.clone();
+        let mut twin = inst.lcs[0].clone();
+        twin.terms.push((Fr::from(2u64), LCTerm::One));
+        lcs6.insert(range(&mut rng, 0, lcs6.len()), twin);
+        lc_case(ctx, &id, "duplicate-equation-label", &lcs6, &inst.w.comms, &inst.qs, &inst.eq_evals, &proofs, &pevals, &vec![6; k], &inst.sp0);
+        let mut ps6 = inst.sp0.clone();
+        let o6 = lib_open_combinations(&lcs6, &inst.w.polys, &inst.w.sts, &inst.w.comms, &set_of(&inst.qs), &[], &mut ps6);
+        ask_open_combinations(ctx, &id, &lcs6, &inst.w.polys, &inst.w.sts, &inst.w.comms, &inst.qs, &[], &o6);
+        // an equation over a polynomial that was not supplied: the prover aborts, the verifier refuses
+        let mut lcs7 = inst.lcs.clone();
+        lcs7[0].terms.push((Fr::one(), LCTerm::PolyLabel("ghost".to_string())));
+        let mut ps7 = inst.sp0.clone();
+        let o7 = lib_open_combinations(&lcs7, &inst.w.polys, &inst.w.sts, &inst.w.comms, &set_of(&inst.qs), &[], &mut ps7);
+        ask_open_combinations(ctx, &id, &lcs7, &inst.w.polys, &inst.w.sts, &inst.w.comms, &inst.qs, &[], &o7);
+        if o7.res.is_ok() {
+            fail(ctx, &id, "unknown-polynomial-opened", "open_combinations answered for a polynomial that was not supplied");
+        }
+        let r = lc_case(ctx, &id, "unknown-polynomial-in-equation", &lcs7, &inst.w.comms, &inst.qs, &inst.eq_evals, &proofs, &pevals, &vec![6; k], &inst.sp0);
+        if r.out.accepted() {
+            fail(ctx, &id, "unknown-polynomial-accepted", "an equation over a polynomial without commitment was accepted");
+        }
+        // scripted per-group answers below the equation stage
+        for pos in 0..k {
+            let mut script = vec![6; k];
+            script[pos] = [0usize, 4, 9][pos % 3];
+            let r = lc_case(ctx, &id, &format!("inner-batch-bad at {} of {}", pos, k), &inst.lcs, &inst.w.comms, &inst.qs, &inst.eq_evals, &proofs, &pevals, &script, &inst.sp0);
+            if r.out.accepted() {
+                fail(ctx, &id, "combinations-accept-with-bad-group", "a rejected polynomial opening below an equation was accepted");
+            }
+        }
+    }
+}
+
+// ------------------------------------------------------------------------------------------------
+// C02 — a changed statement reaches the scheme's `check` / is rejected by the equation stage
+// ------------------------------------------------------------------------------------------------
+
+fn c02(ctx: &mut Ctx) {
+    let n = ctx.n(12, 150);
+    for i in 0..n {
+        let id = format!("C02/default/claims/{}", i);
+        if !ctx.selected(&id) {
+            continue;
+        }
+        let mut rng = rng_for(ctx.seed, "C02/default/claims", i as u64);
+        let (w, qs, evals, proofs, sp0) = honest_batch(&mut rng, i, 1);
+        let qset = set_of(&qs);
+        let groups = ref_groups(&qset);
+        // value + delta at every (label, point): `check` of that group must be handed the changed value
+        let keys: Vec<(String, Fr)> = evals.keys().cloned().collect();
+        for (j, key) in keys.iter().enumerate() {
+            let mut ev = evals.clone();
+            let nv = evals[key] + Fr::from(1 + j as u64);
+            ev.insert(key.clone(), nv);
+            let r = batch_case(ctx, &id, &format!("value-changed at {} of {}", j, keys.len()), &w.comms, &qs, &ev, &proofs, &[], &sp0);
+            for (g, entry) in groups.iter().zip(r.log.iter()) {
+                if g.1 == key.1 {
+                    if let Some(pos) = g.2.iter().position(|l| *l == key.0) {
+                        let handed = entry.as_list().and_then(|l| l[3].as_list().map(|v| v[pos].clone()));
+                        if handed != Some(wire::fe(&nv)) {
+                            fail(ctx, &id, "changed-value-not-checked", &format!("the claimed value of {:?} was changed and `check` was handed {:?}", key.0, handed));
+                        }
+                    }
+                }
+            }
+        }
+        // a replaced commitment (other id under the same label) is the one that is checked
+        for j in 0..w.comms.len() {
+            let mut cs = w.comms.clone();
+            cs[j] = LabeledCommitment::new(cs[j].label().clone(), ToyComm { id: 4242, coeffs: vec![Fr::one()] }, None);
+            let r = batch_case(ctx, &id, &format!("commitment-replaced {}", j), &cs, &qs, &evals, &proofs, &[], &sp0);
+            let l = w.comms[j].label();
+            for (g, entry) in groups.iter().zip(r.log.iter()) {
+                if let Some(pos) = g.2.iter().position(|x| x == l) {
+                    let handed = entry.as_list().and_then(|e| e[1].as_list().map(|v| v[pos].clone()));
+                    if handed != Some(wire::nat(4242)) {
+                        fail(ctx, &id, "replaced-commitment-not-checked", &format!("commitment {:?} was replaced and `check` was handed {:?}", l, handed));
+                    }
+                }
+            }
+        }
+        // another point under a point label: `check` is run at the new point
+        let (pl0, z0) = (groups[0].0.clone(), groups[0].1);
+        let q2: Vec<Q> = qs.iter().map(|(l, (pl, z))| if *pl == pl0 { (l.clone(), (pl.clone(), z0 + Fr::from(17u64))) } else { (l.clone(), (pl.clone(), *z)) }).collect();
+        let mut ev2 = evals.clone();
+        for (l, (_, z)) in &q2 {
+            ev2.entry((l.clone(), *z)).or_insert(Fr::from(8u64));
+        }
+        let r = batch_case(ctx, &id, "point-changed", &w.comms, &q2, &ev2, &proofs, &[], &sp0);
+        if r.out.accepted() {
+            fail(ctx, &id, "changed-point-accepted", "a changed query point was accepted with the old proof");
+        }
+    }
+    // check_combinations: a wrong claimed value at every position (also: one equation at several points)
+    let n = ctx.n(12, 150);
+    for i in 0..n {
+        let id = format!("C02/default/lc-claims/{}", i);
+        if !ctx.selected(&id) {
+            continue;
+        }
+        let mut rng = rng_for(ctx.seed, "C02/default/lc-claims", i as u64);
+        let inst = gen_lc_inst(&mut rng, i);
+        let mut ps = inst.sp0.clone();
+        let (proofs, pevals) = match lc_open(ctx, &id, &inst, &mut ps) {
+            Some(x) => x,
+            None => continue,
+        };
+        let keys: Vec<(String, Fr)> = inst.eq_evals.keys().cloned().collect();
+        for (j, key) in keys.iter().enumerate() {
+            let mut ev = inst.eq_evals.clone();
+            *ev.get_mut(key).unwrap() -= Fr::from(1 + (j as u64));
+            let r = lc_case(ctx, &id, &format!("claimed-value-changed at {} of {}", j, keys.len()), &inst.lcs, &inst.w.comms, &inst.qs, &ev, &proofs, &pevals, &[], &inst.sp0);
+            if r.out != Out::B(false) {
+                fail(ctx, &id, "wrong-combination-value-not-rejected", &format!("claimed value of {:?} changed: {:?}", key.0, r.out));
+            }
+        }
+    }
+}
+
+// ------------------------------------------------------------------------------------------------
+// C10 — the default verifiers decide exactly the reference relation on single-fault neighbours
+// ------------------------------------------------------------------------------------------------
+
+fn c10(ctx: &mut Ctx) {
+    let n = ctx.n(40, 500);
+    for i in 0..n {
+        let id = format!("C10/default/relation/{}", i);
+        if !ctx.selected(&id) {
+            continue;
+        }
+        let mut rng = rng_for(ctx.seed, "C10/default/relation", i as u64);
+        if i % 2 == 0 {
+            let (w, qs, evals, proofs, sp0) = honest_batch(&mut rng, i / 2, 2);
+            let k = proofs.len();
+            let mut comms = w.comms.clone();
+            let mut q = qs.clone();
+            let mut ev = evals.clone();
+            let mut pr = proofs.clone();
+            let mut script = vec![1usize; k];
+            let fault = range(&mut rng, 0, 8);
+            let what = match fault {
+                0 => "none",
+                1 => {
+                    let j = range(&mut rng, 0, comms.len() - 1);
+                    comms[j] = LabeledCommitment::new(comms[j].label().clone(), ToyComm { id: 31337, coeffs: vec![] }, None);
+                    "commitment"
+                }
+                2 => {
+                    let key = ev.keys().nth(range(&mut rng, 0, ev.len() - 1)).unwrap().clone();
+                    *ev.get_mut(&key).unwrap() += Fr::one();
+                    "value"
+                }
+                3 => {
+                    let j = range(&mut rng, 0, q.len() - 1);
+                    let pl = q[j].1 .0.clone();
+                    let dz = Fr::rand(&mut rng);
+                    for x in q.iter_mut() {
+                        if x.1 .0 == pl {
+                            x.1 .1 += dz;
+                        }
+                    }
+                    for (l, (_, z)) in &q {
+                        ev.entry((l.clone(), *z)).or_insert(Fr::from(2u64));
+                    }
+                    "point"
+                }
+                4 => {
+                    let j = range(&mut rng, 0, k - 1);
+                    pr[j].chal += Fr::one();
+                    "proof-element"
+                }
+                5 => {
+                    let j = range(&mut rng, 0, k - 1);
+                    pr[j] = proofs[(j + 1) % k].clone();
+                    "proof-of-another-group"
+                }
+                6 => {
+                    script[range(&mut rng, 0, k - 1)] = 0;
+                    "group-verdict-false"
+                }
+                7 => {
+                    // every group but one forced true, that one false: only the conjunction rejects
+                    script = vec![6; k];
+                    script[range(&mut rng, 0, k - 2)] = 0;
+                    "group-verdict-false-not-last"
+                }
+                _ => {
+                    let j = range(&mut rng, 0, q.len() - 1);
+                    q.remove(j);
+                    "query-dropped"
+                }
+            };
+            batch_case(ctx, &id, &format!("batch {}", what), &comms, &q, &ev, &pr, &script, &sp0);
+            ctx.rep.count(&format!("default/c10-batch-{}", what));
+        } else {
+            let inst = gen_lc_inst(&mut rng, i / 2);
+            let mut ps = inst.sp0.clone();
+            let (proofs, pevals) = match lc_open(ctx, &id, &inst, &mut ps) {
+                Some(x) => x,
+                None => continue,
+            };
+            let k = proofs.len();
+            let mut lcs = inst.lcs.clone();
+            let mut comms = inst.w.comms.clone();
+            let mut ev = inst.eq_evals.clone();
+            let mut pe = pevals.clone();
+            let mut pr = proofs.clone();
+            let mut script = vec![1usize; k];
+            let fault = range(&mut rng, 0, 7);
+            let what = match fault {
+                0 => "none",
+                1 => {
+                    let key = ev.keys().nth(range(&mut rng, 0, ev.len() - 1)).unwrap().clone();
+                    *ev.get_mut(&key).unwrap() += Fr::one();
+                    "claimed-value"
+                }
+                2 => {
+                    let e = range(&mut rng, 0, lcs.len() - 1);
+                    let t = range(&mut rng, 0, lcs[e].terms.len() - 1);
+                    lcs[e].terms[t].0 += Fr::one();
+                    "coefficient-or-constant"
+                }
+                3 => {
+                    if let Some(p) = pe.as_mut() {
+                        if !p.is_empty() {
+                            let j = range(&mut rng, 0, p.len() - 1);
+                            p[j] += Fr::one();
+                        }
+                    }
+                    "transmitted-evaluation"
+                }
+                4 => {
+                    let j = range(&mut rng, 0, comms.len() - 1);
+                    comms.remove(j);
+                    "commitment-dropped"
+                }
+                5 => {
+                    let j = range(&mut rng, 0, k - 1);
+                    pr[j].chal += Fr::one();
+                    "proof-element"
+                }
+                6 => {
+                    script = vec![6; k];
+                    script[range(&mut rng, 0, k - 1)] = 0;
+                    "group-verdict-false"
+                }
+                _ => {
+                    let e = range(&mut rng, 0, lcs.len() - 1);
+                    lcs[e].terms.push((Fr::zero(), LCTerm::PolyLabel(inst.w.polys[0].label().clone())));
+                    "zero-term-added"
+                }
+            };
+            lc_case(ctx, &id, &format!("lc {}", what), &lcs, &comms, &inst.qs, &ev, &pr, &pe, &script, &inst.sp0);
+            ctx.rep.count(&format!("default/c10-lc-{}", what));
+        }
+    }
+}
+
+// ------------------------------------------------------------------------------------------------
+// C11 — histories of default batch / combination openings on one sponge stay in lock-step
+// ------------------------------------------------------------------------------------------------
+
+enum Op {
+    Batch(Vec<Q>),
+    Lc(Vec<LinComb>, Vec<Q>),
+}
+struct Proved {
+    proofs: Vec<ToyProof>,
+    pevals: Option<Vec<Fr>>,
+}
+
+fn c11(ctx: &mut Ctx) {
+    let n = ctx.n(20, 250);
+    for i in 0..n {
+        let id = format!("C11/default/history/{}", i);
+        if !ctx.selected(&id) {
+            continue;
+        }
+        let mut rng = rng_for(ctx.seed, "C11/default/history", i as u64);
+        let w = gen_world(&mut rng, 2 + i % 3);
+        let labels: Vec<String> = w.polys.iter().map(|p| p.label().clone()).collect();
+        let nops = 2 + i % 3;
+        let mut ops = vec![];
+        for j in 0..nops {
+            if (i + j) % 2 == 0 {
+                ops.push(Op::Batch(gen_queries(&mut rng, &labels, 1 + (i + j) % 3)));
+            } else {
+                let lcs = gen_lcs(&mut rng, &labels, 1 + j % 2, i + j);
+                let els: Vec<String> = lcs.iter().map(|l| l.label().clone()).collect();
+                let qs = gen_queries(&mut rng, &els, 1 + (i + j) % 2);
+                ops.push(Op::Lc(lcs, qs));
+            }
+        }
+        let mut sp0 = LogSponge::fresh();
+        sp0.absorb(&(9000 + i as u64).to_le_bytes().to_vec());
+        // prover history
+        let mut ps = sp0.clone();
+        let mut proved: Vec<Proved> = vec![];
+        let mut ps_probes = vec![];
+        let mut ok = true;
+        for (j, op) in ops.iter().enumerate() {
+            let oid = format!("{}/op{}", id, j);
+            let run = match op {
+                Op::Batch(qs) => {
+                    let o = lib_batch_open(&w.polys, &w.sts, &w.comms, &set_of(qs), &[], &mut ps);
+                    ask_batch_open(ctx, &oid, &w.polys, &w.sts, &w.comms, qs, &[], &o);
+                    o
+                }
+                Op::Lc(lcs, qs) => {
+                    let o = lib_open_combinations(lcs, &w.polys, &w.sts, &w.comms, &set_of(qs), &[], &mut ps);
+                    ask_open_combinations(ctx, &oid, lcs, &w.polys, &w.sts, &w.comms, qs, &[], &o);
+                    o
+                }
+            };
+            match run.res {
+                Ok(p) => proved.push(Proved { proofs: p, pevals: run.evals }),
+                Err(c) => {
+                    fail(ctx, &oid, "honest-history-open-refused", &format!("opening {} of the history refused (code {})", j, c));
+                    ok = false;
+                    break;
+                }
+            }
+            ps_probes.push(ps.probe());
+        }
+        if !ok {
+            continue;
+        }
+        // the verifier side of one operation
+        let verify = |ctx: &mut Ctx, oid: &str, op: &Op, pr: &Proved, vs: &mut LogSponge, ask: bool| -> Out {
+            match op {
+                Op::Batch(qs) => {
+                    let ev = true_evals(&w, qs);
+                    let r = lib_batch_check(&w.comms, &set_of(qs), &ev, &pr.proofs, &[], vs);
+                    if ask {
+                        ask_batch_check(ctx, oid, &w.comms, qs, &ev, &pr.proofs, &[], &r);
+                    }
+                    r.out
+                }
+                Op::Lc(lcs, qs) => {
+                    let mut ev = Evaluations::new();
+                    for (el, (_, z)) in qs {
+                        ev.insert((el.clone(), *z), lc_true_value(&w, lc_get(lcs, el).unwrap(), z));
+                    }
+                    let r = lib_check_combinations(lcs, &w.comms, &set_of(qs), &ev, &pr.proofs, &pr.pevals, &[], vs);
+                    if ask {
+                        ask_check_combinations(ctx, oid, lcs, &w.comms, qs, &ev, &pr.proofs, &pr.pevals, &[], &r);
+                    }
+                    r.out
+                }
+            }
+        };
+        // honest verifier history: every check accepts, the sponges agree after every prefix
+        let mut vs = sp0.clone();
+        for (j, (op, pr)) in ops.iter().zip(proved.iter()).enumerate() {
+            let oid = format!("{}/op{}", id, j);
+            let out = verify(ctx, &oid, op, pr, &mut vs, true);
+            if !out.accepted() {
+                fail(ctx, &oid, "history-check-rejected", &format!("check {} of an honest history returned {:?}", j, out));
+            }
+            if vs.probe() != ps_probes[j] {
+                fail(ctx, &oid, "history-sponge-diverged", &format!("sponges differ after operation {} of an honest history", j));
+            }
+        }
+        ctx.rep.case(&format!("{} history of {} default operations", id, nops), Some(format!("default/history/{}/{}", nops, i % 6)));
+        // perturbed pre-state: nothing is accepted (every group's lock-step verdict fails)
+        let mut vs2 = sp0.clone();
+        vs2.absorb(&vec![1u8, 2, 3]);
+        for (j, (op, pr)) in ops.iter().zip(proved.iter()).enumerate() {
+            if pr.proofs.is_empty() {
+                continue;
+            }
+            let oid = format!("{}/pre/op{}", id, j);
+            let out = verify(ctx, &oid, op, pr, &mut vs2, true);
+            if out.accepted() {
+                fail(ctx, &oid, "perturbed-sponge-accepted", &format!("check {} accepted on a sponge with a different pre-state", j));
+            }
+        }
+        // two operations of the history checked in exchanged positions
+        if nops >= 2 {
+            let a = range(&mut rng, 0, nops - 2);
+            let mut order: Vec<usize> = (0..nops).collect();
+            order.swap(a, a + 1);
+            let mut vs3 = sp0.clone();
+            for (pos, &j) in order.iter().enumerate() {
+                let oid = format!("{}/swap/op{}", id, j);
+                let out = verify(ctx, &oid, &ops[j], &proved[j], &mut vs3, true);
+                if (pos == a || pos == a + 1) && !proved[j].proofs.is_empty() && out.accepted() {
+                    fail(ctx, &oid, "displaced-proof-accepted", &format!("operation {} accepted at position {} of the history", j, pos));
+                }
+            }
+        }
+        ctx.rep.case(&format!("{} perturbed pre-state and exchanged operations", id), None);
+    }
+}
